@@ -139,11 +139,11 @@ pub fn run(tier: Tier) -> Report {
         let mut cut_sets: Vec<Vec<usize>> = (1..n).map(|c| vec![c]).collect();
         // deviation 2: three-way splits - all pairs for the minimal session, all pairs within a
         // 64-byte window (every 3rd start) otherwise; thorough: window 256 / all for sessions < 1500 bytes
-        let all_pairs = s.name == "minimal" || (tier == Tier::Thorough && n < 1500);
-        // large sessions: quick explores pairs in a narrow window at a coarser stride
+        let all_pairs = s.name == "minimal" || (tier == Tier::Thorough && n < 1100);
+        // large sessions (10 ms per run): pairs in a narrow window at a coarser stride
         let large = n > 5000;
-        let window = if large { tier.pick(8, 64) } else { tier.pick(64, 256) };
-        let stride = if all_pairs { 1 } else if large { tier.pick(16, 2) } else { tier.pick(3, 1) };
+        let window = if large { tier.pick(8, 16) } else { tier.pick(64, 128) };
+        let stride = if all_pairs { 1 } else if large { tier.pick(16, 4) } else { tier.pick(3, 1) };
         for a in (1..n).step_by(stride) {
             let hi = if all_pairs { n } else { (a + window).min(n) };
             for b in a + 1..hi {
